@@ -1048,6 +1048,61 @@ def check_bintest(ctx, T, target_only, own_alpha_limit, sub):
                 ctx.stratum("bintest: alpha equal to a reported adjusted p (strict '<' decides)")
 
 
+def check_history(ctx, T, sub):
+    """Every word of two operations over {bintest, segmetrics} on ONE pair of table objects: each answer must be the one
+    fresh objects get (fresh answers are judged against the model elsewhere in this case)."""
+    cfg = {**DEFAULT_CFG, "bootstraps": 10}
+
+    def do(op, cn, sg):
+        if op == "bintest":
+            out = ctx.call(BT.do_bintest, cn, sg, BT_ALPHA_ALL, False)
+            cols = ("chromosome", "start", "end", "log2", "p_bintest")
+        else:
+            out = ctx.call(
+                SG.do_segmetrics, cn, sg, location_stats=list(LOC), spread_stats=list(SPREAD), interval_stats=list(INTERVAL),
+                alpha=cfg["alpha"], bootstraps=cfg["bootstraps"], smoothed=cfg["smoothed"], skip_low=cfg["skip_low"],
+            )  # fmt: skip
+            cols = None
+        if isinstance(out, Exc):
+            return out
+        data = out.data
+        return {c: [fnum(v) if isinstance(v, float) else v for v in data[c].tolist()] for c in (cols or list(data.columns)) if c in data.columns}
+
+    def same(a, b):
+        if isinstance(a, Exc) or isinstance(b, Exc):
+            return isinstance(a, Exc) and isinstance(b, Exc)
+        if sorted(a) != sorted(b):
+            return False
+        for c in a:
+            if len(a[c]) != len(b[c]):
+                return False
+            for x, y in zip(a[c], b[c]):
+                if isinstance(x, float) and isinstance(y, float):
+                    if not ((x != x and y != y) or close(x, y, 1e-12)):
+                        return False
+                elif x != y:
+                    return False
+        return True
+
+    fresh = {op: do(op, T.cnarr(), T.segarr()) for op in ("bintest", "segmetrics")}
+    for word in itertools.product(("bintest", "segmetrics"), repeat=2):
+        cn, sg = T.cnarr(), T.segarr()
+        for pos, op in enumerate(word):
+            got = do(op, cn, sg)
+            ctx.trace()
+            if not same(fresh[op], got):
+                ctx.violation(
+                    "segment statistics and bin tests of a bin table are those of its bins, whatever was computed from the same table objects before",
+                    f"history/{op}/" + ("first-call" if pos == 0 else "after-" + word[0]),
+                    expected=fresh[op],
+                    observed=got,
+                    sub={**sub, "table": T.spec, "history": list(word[: pos + 1])},
+                )
+                break
+        ctx.state(("history", T.spec, word), nontrivial=True)
+    ctx.stratum("history: two operations on one pair of table objects")
+
+
 # (geometry, weight pattern, segment-log2 mode); weight 1 everywhere only with the shifted level (else 0/0 for most words)
 BT_COMBOS = [
     ("abut", "cycle", "shift"),
@@ -1076,6 +1131,9 @@ def run_bintest_layout(case, ctx, b):
             check_bintest(ctx, T, False, lim, sub)
         T = Table(spec, weights="half", mode="shift", null=nb // 2)
         check_bintest(ctx, T, False, lim, sub)
+        if not long_:
+            for geom, w, mode in BT_COMBOS[:1] + BT_COMBOS[3:4]:
+                check_history(ctx, Table(spec, geom=geom, weights=w, mode=mode), sub)
         for g, genes in enumerate(GENES[1:]):
             w, mode = (("cycle", "shift"), ("half", "wmean"), ("cycle2", "zero"))[(g + r) % 3]
             T = Table(spec, weights=w, mode=mode, genes=genes)
@@ -1101,5 +1159,5 @@ MANIFEST = {
     "the numerical content of the bootstrap interval beyond ordering / range / reproducibility, the range clause for the smoothed "
     "bootstrap with weights below 1 (noise is added by design).",
     "technique": "explicit-state enumeration of bin tables, segmentations, statistic subsets and configurations on the real code, "
-    "independent textbook reference model as oracle",
+    "independent textbook reference model as oracle; stateless enumeration of all two-operation histories (bintest, segmetrics) on shared table objects, differential oracle",
 }
